@@ -16,6 +16,7 @@ import (
 	"verif/harness/cmapref"
 	"verif/harness/ev"
 	"verif/harness/t1gen"
+	"verif/harness/t1ref"
 )
 
 type c07case struct {
@@ -524,6 +525,69 @@ func TestP3Orders(t *testing.T) {
 	rec.Sample("2 begincidchar ... endcidchar 100 beginbfchar ... endbfchar")
 }
 
+// largeCMap builds a CMap of nb full blocks (100 entries each) of the kinds
+// Adobe's big CMaps are made of; codes are two bytes, assigned in a shuffled
+// but fixed order.
+func largeCMap(nb int, salt int) *cmapref.CMap {
+	m := &cmapref.CMap{Name: fmt.Sprintf("Large-%d-H", nb), Registry: []byte("Adobe"), Ordering: []byte("Japan1"), Supplement: 6, CMapType: 1}
+	m.Blocks = append(m.Blocks, cmapref.Block{Kind: cmapref.CodeSpace, Declared: -1, Entries: []cmapref.Entry{{Lo: []byte{0, 0}, Hi: []byte{0xff, 0xff}}}})
+	next := 0
+	code := func() []byte {
+		v := (next*7919 + salt) & 0xffff
+		next++
+		return []byte{byte(v >> 8), byte(v)}
+	}
+	for b := 0; b < nb; b++ {
+		kind := []int{cmapref.CidRange, cmapref.CidChar, cmapref.BfChar, cmapref.CidRange}[b%4]
+		blk := cmapref.Block{Kind: kind, Declared: -1}
+		for i := 0; i < 100; i++ {
+			e := cmapref.Entry{Lo: code()}
+			switch kind {
+			case cmapref.CidRange:
+				e.Hi = []byte{e.Lo[0], 0xff}
+				e.Dst = cmapref.Dst{Kind: 0, Int: int64(b*100 + i)}
+			case cmapref.CidChar:
+				e.Dst = cmapref.Dst{Kind: 0, Int: int64(b*100 + i)}
+			default:
+				e.Dst = cmapref.Dst{Kind: 1, Str: []byte{byte(b), byte(i)}}
+			}
+			blk.Entries = append(blk.Entries, e)
+		}
+		m.Blocks = append(m.Blocks, blk)
+	}
+	return m
+}
+
+// largeCase lays the CMap out with a seeded chooser (a rapid draw per layout
+// choice would mean several 100,000 draws per file).
+func largeCase(nb, salt int) *c07case {
+	m := largeCMap(nb, salt)
+	return &c07case{CMaps: []*cmapref.CMap{m}, Data: cmapref.Write([]*cmapref.CMap{m}, &t1ref.LCG{S: uint64(salt)*2654435761 + 1})}
+}
+
+func TestP4Large(t *testing.T) {
+	rec := ev.New("C07", "large")
+	defer rec.Finish(t)
+	rec.Rule("CMaps of the size of Adobe's large CJK CMaps: 150-600 full blocks of 100 entries (cidrange, cidchar, bfchar; 15,000-60,000 mappings, up to about 1 MB of text), laid out by the independent serialiser; same oracle as the cmaps part. Every case is non-trivial; distinct by size and salt.")
+	ev.SetupRapid(6, 96)
+	rapid.Check(t, func(t *rapid.T) {
+		nb := rapid.SampledFrom([]int{150, 250, 340, 400, 500, 600}).Draw(t, "nblocks")
+		salt := rapid.IntRange(0, 65535).Draw(t, "salt")
+		c := largeCase(nb, salt)
+		rec.Eval(1)
+		rec.Class(fmt.Sprintf("blocks=%d", nb))
+		rec.NonTrivial(fmt.Sprint(nb, salt))
+		if rec.WantSample() {
+			rec.Sample(map[string]any{"blocks": nb, "mappings": nb * 100, "bytes": len(c.Data)})
+		}
+		if msg := ev.Safe(func() string { return check(c) }); msg != "" {
+			// the replay file names the parameters; the 1 MB text is rebuilt
+			rec.Violation(false, msg, map[string]any{"large_blocks": nb, "salt": salt})
+			t.Fatalf("%s", msg)
+		}
+	})
+}
+
 func TestReplay(t *testing.T) {
 	rc, err := ev.LoadReplay()
 	if err != nil {
@@ -532,8 +596,14 @@ func TestReplay(t *testing.T) {
 	if rc == nil {
 		t.Skip("no VERIF_REPLAY")
 	}
+	var big struct {
+		Blocks int `json:"large_blocks"`
+		Salt   int `json:"salt"`
+	}
 	var c c07case
-	if err := json.Unmarshal(rc.Case, &c); err != nil {
+	if json.Unmarshal(rc.Case, &big) == nil && big.Blocks > 0 {
+		c = *largeCase(big.Blocks, big.Salt)
+	} else if err := json.Unmarshal(rc.Case, &c); err != nil {
 		t.Fatal(err)
 	}
 	if msg := ev.Safe(func() string { return check(&c) }); msg != "" {
